@@ -127,7 +127,15 @@ def gen(rng):
     if longpath:
         # a deep location made of bytes that all need escaping: the Path value is 3 times as long as the path (5-12 KB)
         loc = base + '/' + '/'.join(rng.choice(['é', 'ж', '日']) * rng.choice([60, 80]) + str(k_) for k_ in range(rng.randint(9, 14))) + '/' + nm
+    if not longpath and rng.random() < 0.06:
+        # a Path written by another tool with a '<symlink>/..' step in it (the kernel resolves that to the parent of the link's
+        # TARGET; a textual normalisation names another directory): every command takes the Path as it is written
+        steps.append(['d', home + '/aux/elsewhere/deep', 0o755])
+        steps.append(['l', base + '/lnk', home + '/aux/elsewhere/deep'])
+        loc = base + '/lnk/../' + nm
     content, feats = gen_content(rng, loc, top)
+    if '/lnk/../' in loc:
+        feats.append('dotdot-after-symlink-in-Path')
     if longpath:
         feats.append('path-value-over-4k')
     G.add_trashed(steps, tdir, 'fe', None, None, rng.choice(['file', 'dir']), info_content=content, tag='f')
@@ -263,7 +271,11 @@ def check(sim, case, st):
         payload_top = sorted(added, key=len)[0] if added else None
         if rr.exit == 0 and payload_top is not None:
             # created parents come first; the restored entry is the path equal to what was printed
-            if p_res not in after and not any(k == p_res for k in added):
+            # (the printed path as the kernel resolves it: a '<symlink>/..' step leads to the parent of the link's target)
+            d_, b_ = posixpath.split(p_res)
+            rd_ = ML.resolve(after, d_) if ('/../' in p_res or '/./' in p_res) else None
+            p_phys = ((rd_ if rd_ != '/' else '') + '/' + b_) if rd_ else p_res
+            if p_res not in after and p_phys not in after:
                 bad('restore-destination', 'trash-restore printed %r but restored to %r' % (p_res, sorted(added)[:4]))
     # 3. spec (CR is not defined by the spec: python's text mode reads CRLF as LF
     #    in every command alike, so only the agreement between commands counts)
